@@ -22,7 +22,13 @@ pub fn style(a: &[&str]) -> PrimitiveStyle<Gray8> {
     if a[1] != "0" {
         b = b.stroke_color(Gray8::new(u(a[1]) as u8));
     }
-    b.build()
+    let st = b.build();
+    // shape-independent agreement of the style API entry points (with_fill, with_stroke, new, default, reset_*, From<&style>);
+    // a failure makes the suite answer PANIC instead of a result
+    if let Err(m) = super::c06_circle::style_api_check(&st) {
+        panic!("{}", m);
+    }
+    st
 }
 
 pub struct Rendered {
